@@ -12538,6 +12538,13 @@ func (p *parser) visitClass(nameScopeLoc logger.Loc, class *js_ast.Class, defaul
 		class.Name = &ast.LocRef{Loc: nameScopeLoc, Ref: classNameRef}
 	}
 
+	// The name of a class expression is not a member of any scope, so it's not
+	// pinned by "popScope". Pin it here if the class contains a direct eval call
+	// since that could reference the class name.
+	if class.Name != nil && p.currentScope.ContainsDirectEval {
+		p.symbols[class.Name.Ref.InnerIndex].Flags |= ast.MustNotBeRenamed
+	}
+
 	p.popScope()
 
 	// Sanity check that the class lowering info hasn't changed before and after
